@@ -150,18 +150,68 @@ type vfC10Cancel struct {
 	// DelayPct of the (un-randomised) base wait after attempt At: < 100*(1-factor) falls inside the
 	// guaranteed back-off, larger values fall near/after the next attempt.
 	DelayPct int
+	// End says HOW the client's request context ends at that point:
+	//  "" / "cancel"   context.WithCancel, cancelled there (Err() == context.Canceled)
+	//  "deadline"      a context that ends there with Err() == context.DeadlineExceeded (the request
+	//                  carried a deadline that expires at the generated point; harness-driven so that the
+	//                  point is exact)
+	//  "realdeadline"  a genuine context.WithDeadline/WithTimeout: Mode "before" = deadline already in the
+	//                  past; Mode "during" = timeout RealTimeoutMs from the start of the call, and attempt At
+	//                  lasts until that deadline has expired (earlier expiry, e.g. inside a back-off, is
+	//                  recorded by a watcher)
+	End           string
+	RealTimeoutMs int
 }
 
+func (c vfC10Cancel) byDeadline() bool { return c.End == "deadline" || c.End == "realdeadline" }
+
 func (c vfC10Cancel) String() string {
+	how := "cancelled"
+	switch c.End {
+	case "deadline":
+		how = "deadline expires"
+	case "realdeadline":
+		how = fmt.Sprintf("real context.WithTimeout(%dms) expires", c.RealTimeoutMs)
+		if c.Mode == "before" {
+			how = "real context.WithDeadline(past) expired"
+		}
+	}
 	switch c.Mode {
 	case "none":
 		return "cancel{none}"
 	case "before":
-		return "cancel{before the call}"
+		return fmt.Sprintf("cancel{%s before the call}", how)
 	case "during":
-		return fmt.Sprintf("cancel{during attempt %d}", c.At)
+		return fmt.Sprintf("cancel{%s during attempt %d}", how, c.At)
 	}
-	return fmt.Sprintf("cancel{%d%% of base wait after attempt %d}", c.DelayPct, c.At)
+	return fmt.Sprintf("cancel{%s %d%% of base wait after attempt %d}", how, c.DelayPct, c.At)
+}
+
+// vfC10EndCtx is a request context the harness ends at a chosen point with a chosen error
+// (context.DeadlineExceeded: "the request's deadline expired exactly here").
+type vfC10EndCtx struct {
+	mu   sync.Mutex
+	done chan struct{}
+	err  error
+}
+
+func vfC10NewEndCtx() *vfC10EndCtx { return &vfC10EndCtx{done: make(chan struct{})} }
+
+func (c *vfC10EndCtx) Deadline() (time.Time, bool)       { return time.Time{}, false }
+func (c *vfC10EndCtx) Done() <-chan struct{}             { return c.done }
+func (c *vfC10EndCtx) Value(key interface{}) interface{} { return nil }
+func (c *vfC10EndCtx) Err() error {
+	c.mu.Lock()
+	defer c.mu.Unlock()
+	return c.err
+}
+func (c *vfC10EndCtx) end(err error) {
+	c.mu.Lock()
+	if c.err == nil {
+		c.err = err
+		close(c.done)
+	}
+	c.mu.Unlock()
 }
 
 type vfC10Req struct {
@@ -218,7 +268,9 @@ type vfC10Call struct {
 	t0       time.Time
 	plan     vfC10Req
 	pool     vfC10PoolSpec
-	cancel   stdcontext.CancelFunc
+	cancel   func() // ends the client's request context now (the planned way, or forcibly for clean-up)
+	// waitEnd != nil: the planned end is a real deadline; "ending" the context = waiting for it
+	waitEnd  <-chan struct{}
 	attempts []vfC10Attempt
 	cancelAt time.Duration // when cancel() had returned; -1 = never cancelled
 	giveup   chan struct{}
@@ -227,7 +279,14 @@ type vfC10Call struct {
 }
 
 func (c *vfC10Call) doCancel() {
-	c.cancel()
+	if c.waitEnd != nil {
+		select {
+		case <-c.waitEnd:
+		case <-c.giveup:
+		}
+	} else {
+		c.cancel()
+	}
 	at := time.Since(c.t0)
 	c.mu.Lock()
 	if c.cancelAt < 0 {
@@ -438,9 +497,48 @@ const vfC10WaitBound = 40 * time.Second
 
 // do runs one client request through Proxy.Handle.
 func (e *vfC10Env) do(plan vfC10Req) vfC10Result {
-	cctx, cancel := stdcontext.WithCancel(stdcontext.Background())
-	defer cancel()
-	call := &vfC10Call{t0: time.Now(), plan: plan, pool: e.pool, cancel: cancel, cancelAt: -1, giveup: make(chan struct{})}
+	var cctx stdcontext.Context
+	var cleanup func()
+	call := &vfC10Call{t0: time.Now(), plan: plan, pool: e.pool, cancelAt: -1, giveup: make(chan struct{})}
+	switch plan.Cancel.End {
+	case "deadline":
+		ec := vfC10NewEndCtx()
+		cctx = ec
+		call.cancel = func() { ec.end(stdcontext.DeadlineExceeded) }
+		cleanup = func() { ec.end(stdcontext.Canceled) }
+	case "realdeadline":
+		base, baseCancel := stdcontext.WithCancel(stdcontext.Background())
+		var dcancel stdcontext.CancelFunc
+		if plan.Cancel.Mode == "before" {
+			cctx, dcancel = stdcontext.WithDeadline(base, time.Now().Add(-time.Second))
+		} else {
+			cctx, dcancel = stdcontext.WithTimeout(base, time.Duration(plan.Cancel.RealTimeoutMs)*time.Millisecond)
+		}
+		call.waitEnd = cctx.Done()
+		call.cancel = baseCancel
+		// watcher: the deadline may expire anywhere (e.g. inside a back-off); record when it was seen
+		watched := make(chan struct{})
+		rc := cctx
+		go func() {
+			defer close(watched)
+			<-rc.Done()
+			if rc.Err() == stdcontext.DeadlineExceeded {
+				at := time.Since(call.t0)
+				call.mu.Lock()
+				if call.cancelAt < 0 {
+					call.cancelAt = at
+				}
+				call.mu.Unlock()
+			}
+		}()
+		cleanup = func() { baseCancel(); dcancel(); <-watched }
+	default:
+		var cancel stdcontext.CancelFunc
+		cctx, cancel = stdcontext.WithCancel(stdcontext.Background())
+		call.cancel = cancel
+		cleanup = cancel
+	}
+	defer cleanup()
 
 	var stdr *http.Request
 	if plan.Stream {
@@ -501,7 +599,7 @@ func (e *vfC10Env) do(plan vfC10Req) vfC10Result {
 		}
 		// release whatever is blocked so that the goroutine can be joined, then report
 		close(call.giveup)
-		call.doCancel()
+		call.cancel()
 		t2 := time.NewTimer(vfC10WaitBound)
 		select {
 		case <-done:
@@ -516,6 +614,9 @@ func (e *vfC10Env) do(plan vfC10Req) vfC10Result {
 	}
 	call.wg.Wait()
 	vfC10Current.Store(nil)
+	if plan.Cancel.End == "realdeadline" {
+		cleanup() // joins the watcher (idempotent)
+	}
 	call.mu.Lock()
 	res.Attempts = append([]vfC10Attempt(nil), call.attempts...)
 	res.CancelAt = call.cancelAt
@@ -548,6 +649,8 @@ const (
 	// vfC10KeyAfterCancel: a further attempt was made although the cancellation was complete before
 	// the guaranteed part of the back-off could have elapsed, reproducibly.
 	vfC10KeyAfterCancel = "further attempt after the client's request was cancelled"
+	// vfC10KeyAfterDeadline: the same for a request whose context ended with DeadlineExceeded.
+	vfC10KeyAfterDeadline = "further attempt after the deadline of the client's request had expired"
 	// vfC10KeyCancelRace: same observation, but only when the back-off timer had already expired by
 	// the time the retry loop looked at it (sub-microsecond waitDuration, or a scheduling stall):
 	// the loop then picks between "timer" and "cancelled" at random and never re-checks the context.
@@ -565,7 +668,9 @@ func vfC10AttemptAfterCancel(pol vfC10RetrySpec, res vfC10Result) int {
 	}
 	for i := 0; i+1 < len(res.Attempts); i++ {
 		a := res.Attempts[i]
-		if res.CancelAt <= a.End || res.CancelAt < a.End+pol.lowerBound(i) {
+		// (an attempt i+1 that started before the request was over can only be a back-off that was too
+		// short: left to the lower-bound check)
+		if (res.CancelAt <= a.End || res.CancelAt < a.End+pol.lowerBound(i)) && res.Attempts[i+1].Start > res.CancelAt {
 			return i
 		}
 	}
@@ -613,28 +718,32 @@ func vfC10Judge(vf *vfCollector, ps vfC10PoolSpec, plan vfC10Req, res vfC10Resul
 			return report("further attempt after a successful one", "attempt %d succeeded (%s) and attempt %d followed", i, res.Attempts[i].Outcome, i+1)
 		}
 	}
-	// --- back-off lower bound
-	for i := 0; i+1 < n; i++ {
-		gap := res.Attempts[i+1].Start - res.Attempts[i].End
-		if lb := pol.lowerBound(i); gap < lb {
-			return report(fmt.Sprintf("back-off shorter than the documented lower bound (backOff=%s)", pol.BackOff),
-				"gap between attempt %d and %d is %v, lower bound base*(1-factor) = %v", i, i+1, gap, lb)
-		}
-	}
 	// --- no further attempt once the client's request is cancelled. Applicable when the
 	// cancellation had completed before the guaranteed part of the back-off could have elapsed.
 	if cancelled {
 		if i := vfC10AttemptAfterCancel(pol, res); i >= 0 {
 			a := res.Attempts[i]
-			return report(vfC10KeyAfterCancel,
-				"cancelled at %v; attempt %d ended at %v (guaranteed back-off %v) and attempt %d started at %v",
-				res.CancelAt, i, a.End, pol.lowerBound(i), i+1, res.Attempts[i+1].Start)
+			key := vfC10KeyAfterCancel
+			if plan.Cancel.byDeadline() {
+				key = vfC10KeyAfterDeadline
+			}
+			return report(key,
+				"request over (%s) at %v; attempt %d ended at %v (guaranteed back-off %v) and attempt %d started at %v",
+				plan.Cancel, res.CancelAt, i, a.End, pol.lowerBound(i), i+1, res.Attempts[i+1].Start)
 		}
 	} else {
 		// --- retries do happen (doc: "maxAttempts: the maximum number of attempts (including the
 		// initial one)"; "retry a failed request")
 		if want := vfC10ExpectedAttempts(ps, plan); n < want {
 			return report("fewer attempts than the policy prescribes", "%d attempts, want %d", n, want)
+		}
+	}
+	// --- back-off lower bound (an attempt that must not have started at all was reported above)
+	for i := 0; i+1 < n; i++ {
+		gap := res.Attempts[i+1].Start - res.Attempts[i].End
+		if lb := pol.lowerBound(i); gap < lb {
+			return report(fmt.Sprintf("back-off shorter than the documented lower bound (backOff=%s)", pol.BackOff),
+				"gap between attempt %d and %d is %v, lower bound base*(1-factor) = %v", i, i+1, gap, lb)
 		}
 	}
 	// --- bodies: a buffered request carries its complete body on every attempt; a stream body is
@@ -672,6 +781,10 @@ func vfC10Judge(vf *vfCollector, ps vfC10PoolSpec, plan vfC10Req, res vfC10Resul
 		}
 		if cancelled {
 			accept = append(accept, rs{resultClientError, 499})
+			if plan.Cancel.byDeadline() && ps.TimeoutMs == 0 {
+				// the request's own deadline expired: reported as a timeout or as a client error
+				accept = append(accept, rs{resultTimeout, http.StatusRequestTimeout})
+			}
 		}
 	case "block":
 		if ps.TimeoutMs > 0 {
@@ -679,6 +792,9 @@ func vfC10Judge(vf *vfCollector, ps vfC10PoolSpec, plan vfC10Req, res vfC10Resul
 		}
 		if cancelled {
 			accept = append(accept, rs{resultClientError, 499})
+			if plan.Cancel.byDeadline() && ps.TimeoutMs == 0 {
+				accept = append(accept, rs{resultTimeout, http.StatusRequestTimeout})
+			}
 		}
 	}
 	ok := false
